@@ -38,7 +38,26 @@ func typeRange(w int, s bool) (int64, int64) {
 
 const rngCap = int64(1) << 61
 
-// mathRange: range of the un-wrapped mathematical value of an arithmetic node (add/sub/mul over the operands' ranges).
+func addOv(a, b int64) (int64, bool) {
+	c := a + b
+	if (a > 0 && b > 0 && c < 0) || (a < 0 && b < 0 && c >= 0) {
+		return 0, false
+	}
+	return c, true
+}
+
+func mulOv(a, b int64) (int64, bool) {
+	if a == 0 || b == 0 {
+		return 0, true
+	}
+	c := a * b
+	if c/b != a || (a == -1 && b == -1<<63) || (b == -1 && a == -1<<63) {
+		return 0, false
+	}
+	return c, true
+}
+
+// mathRange: range of the un-wrapped mathematical value of an arithmetic node over the operands' ranges.
 func (t *Term) mathRange() (lo, hi int64, ok bool) {
 	if len(t.Args) != 2 {
 		return 0, 0, false
@@ -48,40 +67,49 @@ func (t *Term) mathRange() (lo, hi int64, ok bool) {
 	if !ok1 || !ok2 {
 		return 0, 0, false
 	}
+	var o1, o2 bool
 	switch t.Op {
 	case "add":
-		lo, hi = al+bl, ah+bh
+		lo, o1 = addOv(al, bl)
+		hi, o2 = addOv(ah, bh)
+		return lo, hi, o1 && o2
 	case "sub":
-		lo, hi = al-bh, ah-bl
+		if bl == -1<<63 || bh == -1<<63 {
+			return 0, 0, false
+		}
+		lo, o1 = addOv(al, -bh)
+		hi, o2 = addOv(ah, -bl)
+		return lo, hi, o1 && o2
 	case "mul":
+		first := true
 		for _, x := range [2]int64{al, ah} {
 			for _, y := range [2]int64{bl, bh} {
-				if (x > 1<<30 || x < -(1<<30)) && (y > 1<<30 || y < -(1<<30)) {
+				v, o := mulOv(x, y)
+				if !o {
 					return 0, 0, false
 				}
+				if first || v < lo {
+					lo = v
+				}
+				if first || v > hi {
+					hi = v
+				}
+				first = false
 			}
 		}
-		c := [4]int64{al * bl, al * bh, ah * bl, ah * bh}
-		lo, hi = c[0], c[0]
-		for _, v := range c[1:] {
-			if v < lo {
-				lo = v
-			}
-			if v > hi {
-				hi = v
-			}
+		return lo, hi, true
+	case "div":
+		// Go's integer division truncates towards zero: monotone in the dividend for a positive constant divisor
+		if bl == bh && bl > 0 {
+			return al / bl, ah / bl, true
 		}
-	default:
-		return 0, 0, false
 	}
-	if lo < -rngCap || hi > rngCap {
-		return 0, 0, false
-	}
-	return lo, hi, true
+	return 0, 0, false
 }
 
-// rng: a static over-approximation of the term's value (after wrapping to its type), from the types and the declared
-// ranges of variables only - no path condition involved.
+// rng: a static over-approximation of the term's value in its own (signed or unsigned) reading, from the types and
+// the declared ranges of variables only - no path condition involved. Unsigned 64-bit values of 2^63 and more have
+// no representation here and make the range unknown.
 func (t *Term) rng() (lo, hi int64, ok bool) {
 	switch t.rstate {
 	case 1:
@@ -90,7 +118,7 @@ func (t *Term) rng() (lo, hi int64, ok bool) {
 		return 0, 0, false
 	}
 	set := func(l, h int64, k bool) (int64, int64, bool) {
-		if k && l >= -rngCap && h <= rngCap {
+		if k {
 			t.rlo, t.rhi, t.rstate = l, h, 1
 			return l, h, true
 		}
@@ -100,13 +128,19 @@ func (t *Term) rng() (lo, hi int64, ok bool) {
 	if t.W == 0 {
 		return set(0, 1, true)
 	}
-	narrow := t.W < 62
+	narrow := t.W < 63
 	var tl, th int64
 	if narrow {
 		tl, th = typeRange(t.W, t.S)
 	}
 	fit := func(l, h int64, k bool) (int64, int64, bool) {
-		if k && (!narrow || (l >= tl && h <= th)) {
+		if k && narrow && (l < tl || h > th) {
+			return set(tl, th, true) // may wrap: anything of the type
+		}
+		if k && !narrow && !t.S && l < 0 {
+			return set(0, 0, false)
+		}
+		if k {
 			return set(l, h, true)
 		}
 		if narrow {
@@ -116,16 +150,23 @@ func (t *Term) rng() (lo, hi int64, ok bool) {
 	}
 	switch t.Op {
 	case "const":
+		if !t.S && t.W >= 64 && t.K < 0 {
+			return set(0, 0, false)
+		}
 		return set(t.K, t.K, true)
 	case "var":
 		if narrow {
 			return set(tl, th, true)
 		}
 		return set(0, 0, false)
-	case "add", "sub", "mul":
+	case "add", "sub", "mul", "div":
 		return fit(t.mathRange())
 	case "conv":
-		return fit(t.Args[0].rng())
+		l, h, k := t.Args[0].rng()
+		if k && !narrow && !t.S && l < 0 {
+			return set(0, 0, false) // negative value reinterpreted as unsigned 64-bit
+		}
+		return fit(l, h, k)
 	case "ite":
 		al, ah, ok1 := t.Args[1].rng()
 		bl, bh, ok2 := t.Args[2].rng()
@@ -330,6 +371,33 @@ func mkCmp(op string, a, b *Term) *Term { // op: eq lt le  (signedness from a)
 	}
 	if sameTerm(a, b) {
 		return mkBool(op != "lt")
+	}
+	// decided by the static ranges alone (no path condition needed)
+	if a.W > 0 && b.W > 0 {
+		if al, ah, ok1 := a.rng(); ok1 {
+			if bl, bh, ok2 := b.rng(); ok2 && (a.S == b.S || (al >= 0 && bl >= 0)) {
+				switch op {
+				case "lt":
+					if ah < bl {
+						return tTrue
+					}
+					if al >= bh {
+						return tFalse
+					}
+				case "le":
+					if ah <= bl {
+						return tTrue
+					}
+					if al > bh {
+						return tFalse
+					}
+				case "eq":
+					if ah < bl || bh < al {
+						return tFalse
+					}
+				}
+			}
+		}
 	}
 	if op == "eq" && a.W == 0 {
 		if b.IsConst() {
@@ -674,7 +742,10 @@ func (p *printer) strLIA(t *Term) string {
 			return e
 		}
 		if t.W >= 64 && x.W >= 64 {
-			// int64<->uint64 reinterpretation
+			// int64<->uint64 reinterpretation: the value is kept when it is known to be non-negative
+			if lo, _, ok := x.rng(); ok && lo >= 0 {
+				return e
+			}
 			return wrapLIA(e, 64, t.S)
 		}
 		if lo, hi, ok := x.rng(); ok && t.W < 62 {
